@@ -19,7 +19,7 @@ ASSUMPTIONS = ["models/membank.py + the writeEnableState rule of 102 9.10 (READ 
                "'after any read' is judged for reads that return; after a read that raises the state is only recorded"]
 EXHAUSTIVE = {"quick": False, "thorough": False}
 REQUIRED_ANCHORS = {"all": ["single_reads", "not_implemented_expected", "read_all_runs", "read_all_latched",
-                            "faults_injected", "post_state_checked", "interleaved_pairs"]}
+                            "faults_injected", "post_state_checked", "interleaved_pairs", "abandoned_sequences"]}
 SHARD_TIMEOUT = {"quick": 600, "thorough": 3000}
 
 BANKS = ["0", "0L", "1", "202", "203", "204", "205", "206", "207"]
@@ -452,6 +452,7 @@ def run_interleaved(desc, seed, res):
         return Bus([unit, other], bound=2000), bank_obj.read_all(addr), lambda: (list(bank.image), bank.snapshot is not None)
     makers["read_all"] = mk_all
     pairs.differential(res, "C09", rng(seed, "C09", "interleaved"), makers, desc["n"])
+    pairs.abandon(res, "C09", rng(seed, "C09", "abandon"), makers, desc["n"])
 
 
 def run_shard(desc, tier, seed):
